@@ -54,7 +54,12 @@ pub fn inline_styles(doc: &mut Doc, choices: &[u8], next_colour: &mut u32) {
         }
         let mut col = || {
             *next_colour += 1;
-            cssgen::colour_hex(*next_colour)
+            // one inline colour in five is written with rgb()
+            if *next_colour % 5 == 2 {
+                cssgen::colour_rgb_fn(*next_colour, c / 45)
+            } else {
+                cssgen::colour_hex(*next_colour)
+            }
         };
         let imp = if (c / 5) % 3 == 0 { " !important" } else { "" };
         a.style = Some(match (c / 15) % 3 {
